@@ -48,6 +48,9 @@ type Task struct {
 	PanicStack string
 }
 
+// Finished tells whether the task has run to completion.
+func (t *Task) Finished() bool { return t.state == stDone }
+
 // Step is one scheduling decision.
 type Step struct {
 	N     int    `json:"n"`
